@@ -95,7 +95,10 @@ CLAIMS["C09"] = proof(
     "arrivals are Pending while their generation is current and complete with is_leader()=false as soon as it is not; nothing else completes a wait (so none returns early, exactly one leader per generation, generations never release each other). "
     "C09_released_complete — at rest (every woken task re-polled) every pending wait belongs to the current generation, which is short of n arrivals: once the n-th arrives all live waits of that generation are woken (latest waker) and complete at their next poll. "
     "C09_mutex_free / C09_no_error — the inner mutex is free with no queued listener between polls; no unreachable branch, no fuel exhaustion. C09_spec_sane — the abstract barrier never has more current-generation waits outstanding than arrivals. "
-    "Schedule half (threads, wait_blocking) not proved: the inner mutex being contended mid-poll is outside poll-granular histories; pinned by Tie_Barrier. " + CORR, NOTE)
+    "Schedule half PROVED: C09_sched — on the micro-step machine of coq/Sched/BarrierEvSched.v (counter, generation and the event; the critical sections of the state mutex — arrival, re-check after a notification — are atomic actions, the poll of the "
+    "listener happens outside them; any number of wait() futures, spurious polls, cancellation of waiting futures) for EVERY schedule shorter than 2^64 actions a state with nothing in flight and every woken future re-polled has no wait() of a finished "
+    "generation still waiting; C09_sched_no_notify_refuted: the machine whose leader does not notify leaves the other parties asleep; which machine the source is (gen_bar_ln) is read from the generated site table on every run. The inner mutex being contended "
+    "mid-poll is C01/C05 (C05_sched) and is not composed with this machine; wait_blocking: pinned by Tie_Barrier, loom scenario barrier_race. " + CORR, NOTE)
 
 CLAIMS["C04"] = proof(
     "History half proved for every history of fewer than 2^64-2 operations (wait / get_or_init / get_or_try_init / set futures polled with any wakers in any order, closures' futures resolved Ok / Err / panic at any time or never, "
@@ -127,7 +130,10 @@ CLAIMS["C06"] = proof(
     "the two loads of the word, the poll of the listener, notify(1) and the drop of the listener; writers abstract: the bit is set at any time it is clear and cleared at any time it is set, the clearing thread owing no_writer.notify(1); what a future saw when it "
     "was created is arbitrary; spurious polls, cancellation) for EVERY schedule a state with the bit clear, nothing in flight and every woken future re-polled has no waiting read(); C06_sched_readers_prefix_refuted: the machine without the F2b repair loses a "
     "wake-up on a schedule that needs a thread interleaving. Clause (c) at schedule level is the inner Mutex = C05_sched (restated as C06_sched_inner_mutex). Clause (d) (the single writer / upgrader on no_readers), the composition of the three "
-    "events under threads, and blocking forms: not proved, covered by tie lemmas and the loom scenario rw_downgrade_race. " + CORR, NOTE)
+    "events under threads, and blocking forms: not proved, covered by tie lemmas and the loom scenario rw_downgrade_race. "
+    "Clause (d) PROVED at schedule level as well: C06_sched_writer — coq/Sched/RwWriteEvSched.v (reader count, WRITER_BIT and no_readers at atomic-action granularity; write() past the inner mutex and upgrade() run the same loop; a reader leaving is cut between its "
+    "fetch_sub and its notify(1); cancellation = write_unlock then the listener; the inner mutex abstract: at most one future past it): for EVERY schedule, no reader left + nothing in flight + every woken future re-polled => no write()/upgrade() waits; "
+    "C06_sched_writer_prefix_refuted: the machine without the F2c repair loses a wake-up. The three machines (readers, writer, inner mutex) are not composed into one. " + CORR, NOTE)
 CLAIMS["C12"] = proof(
     "History half proved: C12_writer_announced — quiescent, a polled write() or upgrade pending, no write/upgradable guard alive => a writer has announced itself (nH = 1, WRITER_BIT set); C12_bit_iff — WRITER_BIT is set exactly while a write "
     "guard is alive or a writer/upgrader is announced; C12_try_read_fails — then try_read returns None; C12_reader_blocked — then every poll of every read() future returns Pending (whatever its cached state, notified or not). The bit is "
